@@ -98,7 +98,37 @@ def value_st(draw, target, other_names, allow_poly=True):
 
 
 @st.composite
+def large_carrier_case(draw):
+    """Inexact coefficients, integer arguments whose powers leave the 64 bit integers: the value is a float."""
+    names = draw(gen.names_st(max_size=2))
+    desc = draw(gen.poly_desc(names=names, kind=draw(st.sampled_from(["f", "f", "c"])), max_terms=3, max_exp=3,
+                              max_ndim=1))
+    # make sure one term has a high power of the first indeterminate
+    size = gen.size_of(tuple(desc["shape"]))
+    row = [draw(st.integers(5, 9))] + [0] * (len(names) - 1)
+    if all(list(t[0]) != row for t in desc["terms"]):
+        c = [2] * size if desc["kind"] == "f" else [[2, 0]] * size
+        desc["terms"] = desc["terms"] + [[row, c]]
+    spec = []
+    for i, name in enumerate(names):
+        big = draw(st.sampled_from([10 ** 4, -10 ** 4, 70000, 10 ** 5, -3 * 10 ** 5, 2 ** 20])) if i == 0 else draw(st.integers(-3, 3))
+        t = draw(st.sampled_from(["pyint", "np", "np", "array"]))
+        if t == "pyint":
+            val = {"t": "pyint", "v": big}
+        elif t == "np":
+            val = {"t": "np", "dtype": draw(st.sampled_from(["int64", "int32", "uint32"] if big >= 0 else ["int64", "int32"])), "v": big}
+        else:
+            val = {"t": "array", "dtype": "int64", "shape": [], "v": [big]}
+        spec.append({"how": draw(st.sampled_from(["pos", "kw"])) if i == 0 else "kw", "val": val})
+    if spec[0]["how"] == "kw" and len(spec) > 1:
+        pass
+    return {"poly": desc, "spec": spec, "err": None, "stage": 0}
+
+
+@st.composite
 def case_st(draw):
+    if draw(st.integers(0, 9)) == 0:
+        return draw(large_carrier_case())
     names = draw(gen.names_st(max_size=3))
     desc = draw(gen.poly_desc(names=names, max_terms=5, max_exp=3, max_ndim=3))
     if draw(st.integers(0, 4)) == 0 and desc["terms"]:
@@ -240,7 +270,10 @@ def check_case(case, ctx):
                  for s in case["spec"])
     # integer carriers of every width are widened by call(), so only the exact result has to fit;
     # narrow *float* carriers keep small dyadic values (their powers are computed in that width)
-    if bound >= 2 ** 62:
+    # (a polynomial with inexact coefficients evaluates to floats: integer carriers of large values must then
+    # not wrap around on the way, so those cases stay in)
+    float_result = case["poly"]["kind"] in ("f", "c") and full_numeric
+    if bound >= (1e150 if float_result else 2 ** 62):
         ctx.discard_case("magnitude-bound")
         return []
     # also bound every intermediate power of an argument
@@ -249,7 +282,7 @@ def check_case(case, ctx):
             mx = max([abs(complex(x)) if not isinstance(x, list) else abs(complex(*x))
                       for x in (s["val"]["v"] if isinstance(s["val"]["v"], list) and s["val"]["t"] != "np" else [s["val"]["v"]])] or [0])
             deg = max([t[0][names.index(name)] for t in case["poly"]["terms"]] or [0])
-            lim = 2 ** 62
+            lim = 1e150 if float_result else 2 ** 62
             if s["val"]["t"] != "pyint" and s["val"].get("dtype") == "float16":
                 lim = 2000
             if mx ** max(deg, 1) >= lim:
